@@ -247,7 +247,14 @@ func generate(a *Args, rng *Rng, run func(*c06Case)) {
 				c.Fam = "tsa:certificate " + pk
 				withTSA(rng, c, pk)
 				if pk == "e" {
-					c.Tok.GenH = Pick(rng, []int{-15, -15, -5, -25})
+					// TSA certificate valid from 20 h to 10 h ago: judged at genTime, not now
+					c.Tok.GenH = -15
+					c.Fam = "tsa:certificate e, valid at genTime only"
+					run(c)
+					c = valid(rng, false, n)
+					c.Fam = "tsa:certificate e, not valid at genTime"
+					withTSA(rng, c, pk)
+					c.Tok.GenH = Pick(rng, []int{-5, -25})
 				}
 				run(c)
 			}
